@@ -85,10 +85,16 @@ pub fn sample(plan: &DefPlan, run: &DefRun, api: &str) -> J {
 
 pub fn case(tape: &[u8], ctx: &Ctx) -> Outcome {
     let mut o = Outcome::new();
+    let (tape, copy) = split_copy_suffix(tape);
     let mut t = Tape::new(tape);
     let mut po = PlanOpts::standard();
     po.tune_table_domain = true;
-    let plan = gen_plan(&mut t, &po);
+    let mut plan = gen_plan(&mut t, &po);
+    if let Some(b) = copy {
+        apply_copy(&mut plan, b);
+        o.class("session with deflateCopy-and-continue");
+    }
+    let plan = plan;
     let api = t.below(8);
     let sched = gen_inf_schedule(&mut t);
     if std::env::var("VERIF_DEBUG").is_ok() {
